@@ -126,3 +126,7 @@ def describe(case, res):
     evs = [e["ev"] for e in case["events"]]
     return ["top=%s" % top(case["pipe"]), "events=%s" % ("<8" if len(evs) < 8 else "<30" if len(evs) < 30 else ">=30"),
             "finished=%d" % min(2, sum(e[0] == "Finished" for e in evs))]
+
+
+def panic_result(case):
+    return dict(calls=[], writes=[], stats=[0] * 6, failed=False, stats_seq=[], extra_seq=[])
